@@ -15,7 +15,9 @@ package main
 //                    after ready=false → the count decrement            `dec`
 //                    after the decrement → the zero test (+ Delete)     `deleted` | `kept`
 //                    waiting / finished → nothing                       `skip`
-//                    (a second waiter on one slot would make the wake-up order a race: `busy`)
+//                    (several waiters may sleep on one slot: which of them enters after a Broadcast is the
+//                     runtime's choice — it is observed (` woke=<T'>`) and handed to the model; the others go back
+//                     to sleep, or give up when their context is cancelled: ` gaveup=[…]`)
 //        cancel T    cancel T's context
 //        close       Close() the instance stored in hydra's swamps map
 //        closeold K / destroyold K   Close() / Destroy() on the K-th instance ever constructed (0,1,…) through a
@@ -31,6 +33,7 @@ import (
 	"fmt"
 	"math/rand"
 	"os"
+	"sort"
 	"strconv"
 	"strings"
 	"sync"
@@ -81,6 +84,11 @@ type c18World struct {
 
 var c18BrokenCases int
 
+var c18Forced = map[string]bool{"looked": true, "wait": true, "inside": true, "giveup": true, "create": true,
+	"leave.unready": true, "leave.dec": true, "leave.del": true,
+	// the two Broadcasts, reported under the slot's mutex (so they are ordered exactly against the `wait` reports)
+	"giveup.locked": true, "ready.clear": true}
+
 var c18Blocking = map[string]bool{"looked": true, "inside": true, "create": true, "leave.unready": true, "leave.dec": true}
 
 func (w *c18World) handler(hook string, args ...any) {
@@ -114,6 +122,9 @@ func (w *c18World) handler(hook string, args ...any) {
 		return
 	}
 	ev := c18Event{t: t, name: strings.TrimPrefix(hook, "summon.")}
+	if !c18Forced[ev.name] {
+		return // points used by the stress domain only
+	}
 	if os.Getenv("C18_DEBUG") != "" {
 		fmt.Fprintf(os.Stderr, "%s emit t=%d %s ctxErr=%v\n", time.Now().Format("05.000000"), t, ev.name, ctx.Err())
 	}
@@ -159,6 +170,8 @@ func (w *c18World) apply(ev c18Event) {
 		return
 	}
 	switch ev.name {
+	case "giveup.locked", "ready.clear":
+		return
 	case "wait":
 		th.stage = "waiting"
 	case "giveup":
@@ -243,19 +256,63 @@ func (w *c18World) waitersOf(slot *hydra.SwampWaiter) []*c18Thread {
 	return out
 }
 
-// woke: after a ready=false+Broadcast the (single) waiter of that slot enters the critical section;
-// its `inside` event may already have been applied while waiting for the leaver's own event.
-func (w *c18World) woke(before []*c18Thread) string {
-	for _, th := range before {
-		if th.stage == "waiting" {
-			if _, ok := w.next(th.n, 3*time.Second); !ok {
-				w.timeout()
-				return " woke-timeout=" + strconv.Itoa(th.n)
+// await waits for thread t's next own event and, meanwhile, follows every Broadcast on t's slot to
+// its end: a Broadcast (reported under the slot's mutex) wakes every thread that is asleep on the
+// slot; each of them re-evaluates its loop exactly once — it enters (at most one can), goes back to
+// sleep, or gives up, which is another Broadcast.  Returns t's event, the thread that entered and
+// the threads that gave up on the way.
+func (w *c18World) await(t int, d time.Duration) (c18Event, bool, string) {
+	deadline := time.After(d)
+	pending := map[int]bool{}
+	var got *c18Event
+	entered := 0
+	var gave []int
+	for got == nil || len(pending) > 0 {
+		select {
+		case ev := <-w.events:
+			if ev.name == "giveup.locked" || ev.name == "ready.clear" {
+				for _, o := range w.threads {
+					if o.n != ev.t && o.stage == "waiting" && o.slot == ev.w && !pending[o.n] {
+						pending[o.n] = true
+					}
+				}
+				continue
 			}
+			w.apply(ev)
+			if pending[ev.t] && (ev.name == "wait" || ev.name == "inside" || ev.name == "giveup") {
+				delete(pending, ev.t)
+				switch ev.name {
+				case "inside":
+					entered = ev.t
+				case "giveup":
+					gave = append(gave, ev.t)
+				}
+				continue
+			}
+			if ev.t == t && ev.name != "leave.del" {
+				e := ev
+				got = &e
+			}
+		case <-deadline:
+			if got != nil {
+				return *got, false, " settle-timeout"
+			}
+			return c18Event{}, false, ""
 		}
-		return " woke=" + strconv.Itoa(th.n)
 	}
-	return ""
+	tail := ""
+	if entered != 0 {
+		tail += " woke=" + strconv.Itoa(entered)
+	}
+	if len(gave) > 0 {
+		sort.Ints(gave)
+		var g []string
+		for _, x := range gave {
+			g = append(g, strconv.Itoa(x))
+		}
+		tail += " gaveup=[" + strings.Join(g, ",") + "]"
+	}
+	return *got, true, tail
 }
 
 func (w *c18World) cleanup() {
@@ -311,14 +368,19 @@ func genC18(rng *rand.Rand, tier string, w *bufio.Writer) {
 	// genuinely concurrent summoners of a fresh name: exactly one instance, no slot left behind
 	fmt.Fprintln(w, "case 4\nburst 24")
 	fmt.Fprintln(w, "case 5\nburst 8")
-	for c := 6; c < cases; c++ {
+	// three waiters asleep on one slot (one of them cancelled meanwhile): the owner's Broadcast wakes all three, one
+	// enters (observed), the cancelled one gives up — another Broadcast —, the rest sleep again; then the chain unwinds
+	fmt.Fprintln(w, "case 6\ngo 1\ngo 1\ngo 2\ngo 2\ngo 3\ngo 3\ngo 4\ngo 4\ncancel 3\ngo 1\ngo 1\ngo 1\ngo 1\ngo 2\ngo 3\ngo 4\ngo 2\ngo 3\ngo 4\ngo 2\ngo 3\ngo 4\ngo 2\ngo 3\ngo 4\ngo 2\ngo 4")
+	// a cancelled newcomer gives up while two waiters sleep: its Broadcast wakes both, both sleep again
+	fmt.Fprintln(w, "case 7\ngo 1\ngo 1\ngo 2\ngo 2\ngo 3\ngo 3\ngo 4\ncancel 4\ngo 4\ngo 1\ngo 1\ngo 1\ngo 1\ngo 2\ngo 3\ngo 2\ngo 3\ngo 2\ngo 3\ngo 2\ngo 3")
+	for c := 8; c < cases; c++ {
 		if c%15 == 0 {
 			fmt.Fprintf(w, "case %d\nburst %d\n", c, 4+rng.Intn(28))
 			continue
 		}
 		fmt.Fprintf(w, "case %d\n", c)
 		n := 6 + rng.Intn(maxLen)
-		nt := 2 + rng.Intn(3)
+		nt := 2 + rng.Intn(4)
 		for i := 0; i < n; i++ {
 			r := rng.Intn(100)
 			switch {
@@ -492,49 +554,25 @@ func runC18(in *bufio.Scanner, out *bufio.Writer) {
 					res = "lookup slot=" + w.slotIndex(th.slot)
 				}
 			case th.stage == "looked":
-				// a second waiter on the same slot would race with the first one at the wake-up
-				ready, _ := hydra.VerifWaiterState(th.slot)
-				busy := false
-				for _, o := range w.threads {
-					if o != th && o.stage == "waiting" && o.slot == th.slot {
-						busy = true
-					}
-				}
-				if ready && busy && !th.cancelled {
-					res = "busy"
-					break
-				}
-				before := w.waitersOf(th.slot)
 				close(th.rel)
 				th.rel = nil
-				if ev, ok := w.next(t, 3*time.Second); !ok {
+				if ev, ok, tail := w.await(t, 3*time.Second); !ok {
 					w.timeout()
-					res = "unexpected-timeout"
+					res = "unexpected-timeout" + tail
 				} else {
-					res = map[string]string{"inside": "inside", "wait": "waiting", "giveup": "gaveup"}[ev.name]
+					res = map[string]string{"inside": "inside", "wait": "waiting", "giveup": "gaveup"}[ev.name] + tail
 					if ev.name == "giveup" {
 						<-th.done
-						// its Broadcast wakes the slot's waiter, which finds ready still set, counts itself
-						// again and goes back to sleep
-						for _, o := range before {
-							o.stage = "rewaiting"
-							// (with its own context cancelled it gives up as well)
-							if _, ok := w.next(o.n, 3*time.Second); !ok || (o.stage != "waiting" && o.stage != "done") {
-								w.timeout()
-								res += " rewait-timeout"
-							}
-						}
 					}
 				}
 			case th.stage == "inside":
-				before := w.waitersOf(th.slot)
 				close(th.rel)
 				th.rel = nil
-				ev, ok := w.next(t, 3*time.Second)
+				ev, ok, tail := w.await(t, 3*time.Second)
 				switch {
 				case !ok:
 					w.timeout()
-					res = "unexpected-timeout"
+					res = "unexpected-timeout" + tail
 				case ev.name == "create":
 					res = "creating"
 				case ev.name == "leave.unready":
@@ -542,19 +580,18 @@ func runC18(in *bufio.Scanner, out *bufio.Writer) {
 					if th.cancelled {
 						res = "cancelled"
 					}
-					res += w.woke(before)
+					res += tail
 				default:
 					res = "unexpected-" + ev.name
 				}
 			case th.stage == "create":
-				before := w.waitersOf(th.slot)
 				close(th.rel)
 				th.rel = nil
-				if ev, ok := w.next(t, 3*time.Second); !ok || ev.name != "leave.unready" {
+				if ev, ok, tail := w.await(t, 3*time.Second); !ok || ev.name != "leave.unready" {
 					w.timeout()
-					res = "unexpected-" + ev.name
+					res = "unexpected-" + ev.name + tail
 				} else {
-					res = "created" + w.woke(before)
+					res = "created" + tail
 				}
 			case th.stage == "leave.unready":
 				close(th.rel)
@@ -591,7 +628,7 @@ func runC18(in *bufio.Scanner, out *bufio.Writer) {
 			default:
 				res = "skip"
 			}
-			if res == "skip" || res == "busy" {
+			if res == "skip" {
 				fmt.Fprintln(out, res)
 			} else {
 				fmt.Fprintf(out, "go %d %s %s\n", t, res, w.state())
